@@ -851,6 +851,14 @@ def wl_skip_then_loop() -> Workflow:
     )
 
 
+def wl_two_roots(kind: str) -> Workflow:
+    """Two initial stages.  stop: s fails with failPipeline=false (STOPPED) next to the healthy root w -> z;
+    cont: every stage carries continuePipelineOnFailure and succeeds (chain under a failure policy)."""
+    if kind == "stop":
+        return workflow([stage("s", tasks={"t1": {"kind": "terminal"}}, ctx={"failPipeline": False}), stage("w"), stage("z", ["w"])])
+    return workflow([stage("p", ctx={"continuePipelineOnFailure": True}), stage("q", ["p"], ctx={"continuePipelineOnFailure": True}), stage("r", ["q"], ctx={"failPipeline": False})])
+
+
 def wl_joinjump(times: int = 1) -> Workflow:
     """a -> {b1, b2} -> c (a join that jumps back to a `times` times) -> z."""
     return workflow(
@@ -967,6 +975,8 @@ WORKLOADS: dict[str, Callable[[], Workflow]] = {
     "sidejump": wl_sidejump,
     "selfloop2_exact": lambda: wl_selfloop(2, max_jumps=2),
     "loop_skip": wl_loop_skip,
+    "two_roots_stop": lambda: wl_two_roots("stop"),
+    "chain_policy": lambda: wl_two_roots("cont"),
     "skip_then_loop": wl_skip_then_loop,
     "diamond_stop": lambda: wl_diamond(fail="b", stop=True),
     "backjump1sib": lambda: wl_backjump(1, sibling=True),
